@@ -92,6 +92,25 @@ int main(int argc, char** argv) {
             }
             poss.push_back(pos);
             stored.push_back(st);
+            // key structure (polyglot book format): removing one castling right / flipping the side to move changes the key by the
+            // published constant for exactly that feature, whatever the rest of the position is
+            {
+                auto hex = [](U64 v) { char b[20]; snprintf(b, sizeof b, "%016llx", (unsigned long long)v); return std::string(b); };
+                const U64 k1 = PolyglotBook::getHashKey(pos);
+                static const char* names[4] = {"A1", "H1", "A8", "H8"};    // Position::{A1,H1,A8,H8}_CASTLE bit order
+                for (int bit = 0; bit < 4; bit++)
+                    if (pos.getCastleMask() & (1 << bit)) {
+                        Position q(pos);
+                        q.setCastleMask(pos.getCastleMask() & ~(1 << bit));
+                        os << "{\"e\":\"KeyDiff\",\"what\":\"" << names[bit] << "\",\"castle\":" << pos.getCastleMask() << ",\"diff\":\"" << hex(k1 ^ PolyglotBook::getHashKey(q)) << "\"}\n";
+                    }
+                Position q(pos);
+                q.setWhiteMove(!pos.isWhiteMove());
+                q.setEpSquare(Square(-1));
+                Position q0(pos);
+                q0.setEpSquare(Square(-1));
+                os << "{\"e\":\"KeyDiff\",\"what\":\"turn\",\"castle\":" << pos.getCastleMask() << ",\"diff\":\"" << hex(PolyglotBook::getHashKey(q0) ^ PolyglotBook::getHashKey(q)) << "\"}\n";
+            }
         }
         std::sort(ents.begin(), ents.end(), [](const Ent& a, const Ent& c) { return a.key < c.key; });
         std::string bytes;
